@@ -279,7 +279,129 @@ theorem be_gets_conversion (k : Consts) (cfg : Cfg) (cs : List Ctr) :
     podHook k cfg true true cs = some ⟨podShares k cs, podQuota k cfg cs, podMem cs⟩ := by
   simp [podHook]
 
+/-! ### 6. the rule in force is the one configured last (any history of callbacks) -/
+
+/-- assumptions on the float64 test `|old - new| >= 0.01` over two-decimal ratios (in hundredths). -/
+structure ChangedOK (changed : Int → Int → Bool) : Prop where
+  far  : ∀ a b, (a - b ≥ 2 ∨ b - a ≥ 2) → changed a b = true
+  same : ∀ a, changed a a = false
+
+/-- last ratio a node-meta callback configured (-100 = annotation absent), if any. -/
+def lastRatio : List RuleEv → Option Int
+  | [] => none
+  | ev :: rest =>
+    match lastRatio rest with
+    | some p => some p
+    | none => match ev with
+      | .nodeRatio p => some p
+      | _ => none
+
+def lastSlo : List RuleEv → Option Bool
+  | [] => none
+  | ev :: rest =>
+    match lastSlo rest with
+    | some p => some p
+    | none => match ev with
+      | .slo e => some e
+      | _ => none
+
+def runRule (changed : Int → Int → Bool) (r : Rule) (evs : List RuleEv) : Rule :=
+  evs.foldl (fun r ev => (Rule.step changed r ev).1) r
+
+theorem runRule_cons (changed : Int → Int → Bool) (r : Rule) (ev : RuleEv) (evs : List RuleEv) :
+    runRule changed r (ev :: evs) = runRule changed (Rule.step changed r ev).1 evs := by
+  simp [runRule]
+
+/-- after any history, the stored ratio is within one hundredth (the code's epsilon) of the ratio the
+    node configured last; in particular removing the annotation resets it exactly. -/
+theorem rule_tracks_ratio (changed : Int → Int → Bool) (hc : ChangedOK changed) (evs : List RuleEv) (r : Rule) :
+    match lastRatio evs with
+    | some p => ∃ q, (runRule changed r evs).ratio = some q ∧ q - p ≤ 1 ∧ p - q ≤ 1
+    | none => (runRule changed r evs).ratio = r.ratio := by
+  induction evs generalizing r with
+  | nil => simp [lastRatio, runRule]
+  | cons ev evs ih =>
+    rw [runRule_cons]
+    have ih' := ih (Rule.step changed r ev).1
+    unfold lastRatio
+    cases hl : lastRatio evs with
+    | some p => simp only [hl] at ih' ⊢; exact ih'
+    | none =>
+      simp only [hl] at ih' ⊢
+      cases ev with
+      | nodeRatio p =>
+        simp only []
+        rw [ih']
+        unfold Rule.step
+        cases hr : r.ratio with
+        | none => exact ⟨p, by simp, by omega, by omega⟩
+        | some old =>
+          simp only []
+          by_cases hch : changed old p = true
+          · simp only [hch, if_true]; exact ⟨p, rfl, by omega, by omega⟩
+          · simp only [hch]
+            refine ⟨old, hr, ?_, ?_⟩
+            · by_cases h : old - p ≥ 2
+              · exact absurd (hc.far old p (Or.inl h)) hch
+              · omega
+            · by_cases h : p - old ≥ 2
+              · exact absurd (hc.far old p (Or.inr h)) hch
+              · omega
+      | nodeBad => simp only []; rw [ih']; simp [Rule.step]
+      | slo e =>
+        simp only []; rw [ih']
+        unfold Rule.step
+        cases r.cfs with
+        | none => simp
+        | some old => simp only []; split <;> simp
+
+/-- the CFS switch in force is exactly the one the last node-SLO callback computed (default: on). -/
+theorem rule_tracks_cfs (changed : Int → Int → Bool) (evs : List RuleEv) (r : Rule) :
+    match lastSlo evs with
+    | some e => (runRule changed r evs).cfs = some e
+    | none => (runRule changed r evs).cfs = r.cfs := by
+  induction evs generalizing r with
+  | nil => simp [lastSlo, runRule]
+  | cons ev evs ih =>
+    rw [runRule_cons]
+    have ih' := ih (Rule.step changed r ev).1
+    unfold lastSlo
+    cases hl : lastSlo evs with
+    | some p => simp only [hl] at ih' ⊢; exact ih'
+    | none =>
+      simp only [hl] at ih' ⊢
+      cases ev with
+      | nodeRatio p =>
+        simp only []; rw [ih']
+        unfold Rule.step
+        cases r.ratio with
+        | none => simp
+        | some old => simp only []; split <;> simp
+      | nodeBad => simp only []; rw [ih']; simp [Rule.step]
+      | slo e =>
+        simp only []; rw [ih']
+        unfold Rule.step
+        cases hr : r.cfs with
+        | none => simp
+        | some old =>
+          simp only []
+          by_cases h : old = e
+          · subst h; simp [hr]
+          · simp [h]
+
+/-- removing the ratio annotation (or configuring a ratio far from the stored one) takes effect at once. -/
+theorem ratio_removed_resets (changed : Int → Int → Bool) (hc : ChangedOK changed) (r : Rule) (old : Int)
+    (hr : r.ratio = some old) (hpos : 0 < old) :
+    (Rule.step changed r (.nodeRatio (-100))).1.ratio = some (-100) := by
+  unfold Rule.step
+  rw [hr]
+  have : changed old (-100) = true := hc.far old (-100) (Or.inl (by omega))
+  simp [this]
+
 /-! ### non-vacuity -/
+
+example : ChangedOK (fun a b => decide (a ≠ b)) := ⟨fun a b h => by simp; omega, fun a => by simp⟩
+
 
 example : ScaleOK (fun q => (q * 100 + 109) / 110) := by
   refine ⟨?_, ?_, ?_⟩ <;> intros <;> omega
